@@ -106,11 +106,14 @@ class ValueGen:
         fields = {}
         st = {"opt_missing": False, "lens": {}, "switched": self._switch_fields(body)}
         saved = getattr(self, "_len_decl", {})
+        saved_forced = getattr(self, "_len_forced", {})
         self._len_decl = {}
+        self._len_forced = {}
         try:
             self._body(body, tuple(cls), fields, st, sanitized or chunked)
         finally:
             self._len_decl = saved
+            self._len_forced = saved_forced
         return Obj(cls, fields)
 
     def _switch_fields(self, body):
@@ -143,6 +146,8 @@ class ValueGen:
                 if padded:
                     n = length if (self.dialect == "wu" and self.ff_free) else rng.randrange(0, length + 1)
                 return self.string(n, encoded=enc, sanitized=sanitized, padded=padded)
+            if isinstance(length, str) and length in getattr(self, "_len_forced", {}):
+                return self.string(self._len_forced[length], encoded=enc, sanitized=sanitized, padded=padded)
             if isinstance(length, str):
                 ld = self._len_decl[length]
                 lo = max(0, ld.offset, minlen)
@@ -169,6 +174,12 @@ class ValueGen:
             if k == "length":
                 self._len_decl = dict(self._len_decl)
                 self._len_decl[ins.name] = ins
+                if ins.name in st["switched"]:
+                    # a switch looks at this count: settle it now, the item that refers to it follows suit
+                    n = self._pick_switch_value(cls, st["switched"][ins.name], self.it.resolve(ins.type))
+                    n = min(max(n, 0, ins.offset), max(0, self.it.max_len_of(ins)), 40)
+                    self._len_forced = dict(self._len_forced)
+                    self._len_forced[ins.name] = n
             elif k == "field":
                 if ins.name is None:
                     continue
@@ -190,13 +201,15 @@ class ValueGen:
                 t = self.it.resolve(ins.type)
                 if isinstance(ins.length, int):
                     n = ins.length
+                elif isinstance(ins.length, str) and ins.length in self._len_forced:
+                    n = self._len_forced[ins.length]
                 elif isinstance(ins.length, str):
                     ld = self._len_decl[ins.length]
                     n = rng.randrange(max(0, ld.offset), max(0, ld.offset) + 5)
                     n = self._maybe_boundary_length(ld, n, cheap=t.kind in ("int", "bool", "enum"))
                 else:
                     n = rng.choice([0, 1, 1, 2, 3, 5])
-                if self.dialect == "wu" and ins.optional and n == 0 and not isinstance(ins.length, int):
+                if self.dialect == "wu" and ins.optional and n == 0 and not isinstance(ins.length, int) and ins.length not in self._len_forced:
                     n = 1
                 if n > 100:
                     self._big["inside"] += 1
@@ -206,7 +219,7 @@ class ValueGen:
                     if n > 100:
                         self._big["inside"] -= 1
             elif k == "switch":
-                fv = fields.get(ins.field)
+                fv = self._len_forced[ins.field] if ins.field in self._len_forced else fields.get(ins.field)
                 case = self.it.select_case(ins, fv, cls)
                 if case is None or not case.body:
                     fields[ins.field + "_data"] = None
